@@ -96,6 +96,9 @@ def option_cases(tier):
         out.append(("C_Sum_omit", None, r))
     out.append(("C_plain", None, None))
     out.append(("S_plain", None, None))
+    for r in base:
+        out.append(("shared_Sum", None, r))
+        out.append(("shared_Treatment", None, r))
     if tier != "quick":
         for perm in list(itertools.permutations([-1, 0, 2, 5, 7]))[::5]:
             out.append(("C_levels5", list(perm), None))
@@ -114,6 +117,8 @@ def harness(env, case):
     from formulae import design_matrices
 
     kind, lv, r = case
+    if kind.startswith("shared_"):
+        return shared_encoding(env, kind, r)
     data_levels = sorted(lv) if lv else LEVELS4[: harness.nl]
     # training frame: every level twice, scrambled; numeric cells symbolic
     L = len(data_levels)
@@ -166,6 +171,35 @@ def harness(env, case):
             env.prove_equal(X, want, f"{tag}: columns are the coding of the levels in the declared order")
         else:
             env.prove(False, f"{tag}: number of columns", {"got": X.shape, "want": want.shape})
+
+
+def shared_encoding(env, kind, r):
+    """one user-created encoding object used for two factors with different level sets"""
+    from formulae import design_matrices
+    from formulae.categorical import Sum, Treatment
+
+    lv1 = LEVELS4[: harness.nl]
+    lv2 = [r] + [l + 10 for l in lv1 if l != r]  # r is first here, elsewhere in lv1
+    n = 2 * len(lv1)
+    k1 = [lv1[(i * 2 + 1) % len(lv1)] if len(lv1) % 2 else lv1[(i * 3 + 1) % len(lv1)] for i in range(n)]
+    k2 = [lv2[(i + 1) % len(lv2)] for i in range(n)]
+    x = env.column("x", n)
+    df = env.frame({"y": env.column("y", n), "x": x, "k": np.array(k1, dtype=np.int64), "m": np.array(k2, dtype=np.int64)})
+    enc = Sum(r) if kind == "shared_Sum" else Treatment(r)
+    try:
+        with env.running():
+            dm = design_matrices("y ~ 0 + x:C(k, enc) + x:C(m, enc)", df, extra_namespace={"enc": enc})
+            fresh = (lambda: Sum(r)) if kind == "shared_Sum" else (lambda: Treatment(r))
+            dm2 = design_matrices("y ~ 0 + x:C(k, enc1) + x:C(m, enc2)", df, extra_namespace={"enc1": fresh(), "enc2": fresh()})
+    except symx.PathEnd:
+        raise
+    except Exception as e:
+        env.fail("shared encoding object cannot be used for two factors", {"exc": type(e).__name__, "site": core.repo_site(e), "msg": str(e)[:120]})
+        return
+    env.prove_equal(np.asarray(dm.common["x:C(m, enc)"]), np.asarray(dm2.common["x:C(m, enc2)"]), "an encoding object gives the same coding whether or not it was used for another factor before")
+    l1 = [l.split("[")[-1] for l in dm.common.terms["x:C(m, enc)"].labels]
+    l2 = [l.split("[")[-1] for l in dm2.common.terms["x:C(m, enc2)"].labels]
+    env.prove(l1 == l2, "... and the same labels")
 
 
 harness.nl = 3
